@@ -18,6 +18,26 @@ CLAIMS = {
         "note": "ufoLib2/ufo2ft/fontTools assumed; _create_transformed_glyph assumed (checked natively through the harness).  Observation (not claimed by the statement): in a plain glyf build a mirrored reused component that overlaps another shape cancels it under non-zero winding (upstream issue #287; color_glyph._any_overlap_with_reversing_transform is dead code).",
         "design_ref": "DESIGN.md section 4 C03",
     },
+    "C04": {
+        "text": "Partial. The advance rule is discharged for all inputs. Bounded: generated source sets (single codepoints, ZWJ/VS/modifier sequences, prefix sequences) built with the generated feature file in COLRv1/v0, glyf, CFF and OT-SVG; on the compiled font cmap reaches each single-codepoint source's glyph, cmap + the GSUB ligature rules reach each sequence's glyph, distinct sources reach distinct glyphs, each reached glyph shows its own source's artwork, glyph 0 is .notdef with an outline, U+0020 and sequence-only codepoints map to blank glyphs, exactly one ligature rule per sequence; glyph names legal and distinct (known finding F6).",
+        "note": "feaLib/ufo2ft cmap and GSUB compilation assumed; shaping is modelled as cmap lookup plus exact ligature match.",
+        "design_ref": "DESIGN.md section 4 C04",
+    },
+    "C07": {
+        "text": "Partial. Discharged for all inputs: the CBDT offset table (loop invariant: contiguous records of 9 + len(png) bytes from the initial offset). Bounded: fonts generated in all 13 colour formats reload fully, decompile every table, re-save to the same tables; COLR base records sorted with all glyph, layer and palette references in range; SVG documents sorted and disjoint with unique ids, resolving hrefs, no cross-glyph references and one glyph<ID> element per id; CBLC strikes index consecutive runs with one bitmap per glyph; cmap/hmtx/glyf/maxp agree; post format 3 iff names were not requested (TrueType flavour).",
+        "note": "fontTools serialisation assumed; maximum_color output is not covered.",
+        "design_ref": "DESIGN.md section 4 C07",
+    },
+    "C17": {
+        "text": "Partial. Discharged for all inputs: config.validate rejects exactly the invalid metric/version/quantisation values and variable bitmap/OT-SVG configurations; palette index conflicts raise (finite scope); out-of-range gradient coordinates raise. Bounded: duplicate glyph names / codepoint sequences, palette conflicts, unsupported fills, unknown spreadMethod, oversize bitmaps, missing or unparsable sources, duplicate basenames and differing master source sets all end in an exception and no font; write_font.main writes only after _generate_color_font returned.",
+        "note": "that ninja stops and the CLI exits non-zero when a step fails (subprocess.run(check=True)) is assumed.",
+        "design_ref": "DESIGN.md section 4 C17",
+    },
+    "C20": {
+        "text": "Partial. Discharged for all inputs: flag > file > default precedence, config.validate, the viewBox maps' use of the user transform and metrics, ppem, clip-box quantisation. Bounded: write->load identity and flag precedence end to end; fonts built with random option values carry family, upem, ascender/descender/linegap in hhea and OS/2 with USE_TYPO_METRICS, version, post format, tables per colour format, advance rule, space width and clip-box step.  Multi-configuration invocations (shared intermediates) are not covered yet.",
+        "note": "ufo2ft info->tables assumed; driver-level build graph (nanoemoji.py) not under contract.",
+        "design_ref": "DESIGN.md section 4 C20",
+    },
     "C05": {
         "text": "Quantisation (edges are multiples of the step, containment within one step), the rounding/protrusion lemmas (compiled outline points protrude by at most half the transform's row sums plus 1/2) are discharged for all inputs; _bounds (None iff nothing painted, contains every placed shape after otRound, measured under the COLR-semantics accumulated transform, every leaf measured) by exhaustive symbolic execution over 6 paint-tree shapes x up to 2 roots (finite scope, labelled bounded).",
         "note": "A-real; _transformed_glyph_bounds (fontTools ControlBoundsPen/TransformPen) is an assumed contract, conformance-checked natively; A-fdiv: math.floor(v / q) on floats equals the real floor for |v| < 2^31; ufo2ft ClipList writer assumed.",
